@@ -280,6 +280,12 @@ type StructA struct {
 	N int
 }
 
+// HiddenSV: a typed map with SafeValue keys behind an unexported field.
+type HiddenSV struct {
+	ID     int
+	labels map[redact.SafeString]string
+}
+
 type StructB struct {
 	E error
 	B []byte
